@@ -35,6 +35,10 @@
 #include <algorithm>
 #include <sstream>
 #include <fstream>
+#include <memory>
+#include <array>
+#include <list>
+#include <type_traits>
 
 namespace vf {
 
